@@ -22,7 +22,17 @@ const (
 	ClsLine                  // string-literal content: no '"', no newline, no backslash-n sequences that matter
 	ClsNum                   // a canonical decimal integer (value = an Int variable)
 	ClsPath                  // a file path: printable, no newline, no quote
+	ClsFixedTok              // a token with a fixed spelling (keyword, operator, delimiter, illegal char): type and literal symbolic over that set
 )
+
+// fixedTokens: token type -> literal, for every token class whose spelling
+// is fixed (EOF excluded: it can only end the stream).
+var fixedTokens = [][2]string{{"ILLEGAL", "@"}, {"=", "="}, {"==", "=="}, {"!=", "!="}, {"<", "<"}, {">", ">"}, {"<=", "<="}, {">=", ">="},
+	{"&&", "&&"}, {"||", "||"}, {"!", "!"}, {"*", "*"}, {",", ","}, {":", ":"}, {"(", "("}, {")", ")"}, {"{", "{"}, {"}", "}"}, {"[", "["}, {"]", "]"},
+	{"SCRIPT", "script"}, {"RAW", "raw"}, {"TEXT", "text"}, {"MOVEMENT", "movement"}, {"MART", "mart"}, {"MAPSCRIPTS", "mapscripts"}, {"FORMAT", "format"},
+	{"VAR", "var"}, {"FLAG", "flag"}, {"DEFEATED", "defeated"}, {"TRUE", "TRUE"}, {"FALSE", "false"}, {"IF", "if"}, {"ELSE", "else"}, {"ELSEIF", "elif"},
+	{"DO", "do"}, {"WHILE", "while"}, {"BREAK", "break"}, {"CONTINUE", "continue"}, {"SWITCH", "switch"}, {"CASE", "case"}, {"DEFAULT", "default"},
+	{"GLOBAL", "global"}, {"LOCAL", "local"}, {"PORYSWITCH", "poryswitch"}, {"CONST", "const"}, {"VALUE", "value"}, {"MOVES", "moves"}}
 
 var keywords = []string{"script", "raw", "text", "movement", "mart", "mapscripts", "format", "var", "flag", "defeated",
 	"TRUE", "FALSE", "true", "false", "if", "else", "elif", "do", "while", "break", "continue", "switch", "case",
@@ -61,6 +71,8 @@ type Atom struct {
 	NonEmpty bool
 
 	// set per path
+	TypeVal interp.Value // ClsFixedTok: the token type value
+	TypeVar string
 	Var   string       // SMT variable (String, or Int for ClsNum)
 	Val   interp.Value // the string value standing for this atom (rope or string)
 	IntT  string       // ClsNum: Int term
@@ -68,6 +80,9 @@ type Atom struct {
 
 // Placeholder is the text standing for the atom in the rendered source.
 func (a *Atom) Placeholder() string {
+	if a.Class == ClsFixedTok {
+		return fmt.Sprintf("zqf%dz", a.ID)
+	}
 	if a.Class == ClsNum {
 		return fmt.Sprintf("77%04d77", a.ID)
 	}
@@ -108,9 +123,33 @@ func (t *AtomTable) Declare(c *interp.Ctx, values map[int]string) {
 			a.Var = ""
 			a.Val = v
 			a.IntT = ""
+			if a.Class == ClsFixedTok {
+				a.TypeVal = v
+				for _, tl := range fixedTokens {
+					if tl[1] == v {
+						a.TypeVal = tl[0]
+					}
+				}
+			}
 			if a.Class == ClsNum {
 				a.IntT = interp.IntLit(parseInt(v))
 			}
+			continue
+		}
+		if a.Class == ClsFixedTok {
+			var types, lits []string
+			for _, tl := range fixedTokens {
+				types, lits = append(types, tl[0]), append(lits, tl[1])
+			}
+			tv := c.NewEnumCode(fmt.Sprintf("a%dtype", a.ID), types)
+			lv := c.NewEnumCode(fmt.Sprintf("a%dlit", a.ID), lits)
+			var link []string
+			for _, tl := range fixedTokens {
+				link = append(link, fmt.Sprintf("(=> (= %s %s) (= %s %s))", tv, interp.IntLit(interp.InternLit(tl[0])), lv, interp.IntLit(interp.InternLit(tl[1]))))
+			}
+			c.Assume(interp.And(link...))
+			a.Var, a.TypeVar = lv, tv
+			a.Val, a.TypeVal = interp.CodeRope(lv), interp.CodeRope(tv)
 			continue
 		}
 		if a.Class == ClsNum {
@@ -203,7 +242,20 @@ func parseInt(s string) int64 {
 func (t *AtomTable) Placeholders() map[string]interp.Value {
 	m := map[string]interp.Value{}
 	for _, a := range t.Atoms {
-		m[a.Placeholder()] = a.Val
+		if a.Class != ClsFixedTok {
+			m[a.Placeholder()] = a.Val
+		}
+	}
+	return m
+}
+
+// TypePlaceholders returns the literal -> (type, literal) map.
+func (t *AtomTable) TypePlaceholders() map[string][2]interp.Value {
+	m := map[string][2]interp.Value{}
+	for _, a := range t.Atoms {
+		if a.Class == ClsFixedTok {
+			m[a.Placeholder()] = [2]interp.Value{a.TypeVal, a.Val}
+		}
 	}
 	return m
 }
@@ -228,6 +280,14 @@ func (t *AtomTable) ModelValues(model map[string]string) (map[int]string, error)
 				return nil, fmt.Errorf("bad int %s", mv)
 			}
 			res[a.ID] = fmt.Sprint(n)
+			continue
+		}
+		if a.Class == ClsFixedTok {
+			n, ok := interp.ParseIntValue(mv)
+			if !ok {
+				return nil, fmt.Errorf("bad code %s", mv)
+			}
+			res[a.ID] = interp.NameOfCode(n)
 			continue
 		}
 		if len(a.Var) > 2 && a.Var[0] == 'c' && a.Var[2] == '_' {
